@@ -106,6 +106,9 @@ func (d *renameDetector) detectExactRenames() {
 					}
 				}
 				deletes[hash] = newDeletes
+			} else {
+				// no deletion is a usable match: the addition stays an addition
+				addedLeft = append(addedLeft, c)
 			}
 		default:
 			addedLeft = append(addedLeft, c)
